@@ -763,6 +763,17 @@ fn dispatch_fixed(store: &'static str, content: Vec<i64>, n: usize, first: usize
     }
 }
 
+/// indices around the integer-width boundaries (a narrower intermediate type, e.g. a u32 fast
+/// path, misbehaves exactly there): 2^k - d and 2^k + d for small d
+fn boundary_indices(n: usize) -> Vec<usize> {
+    if lean() {
+        // interpreter-sized: only the 32-bit boundary
+        let p = 1usize << 32;
+        return (0..=n + 1).flat_map(|d| [p - d, p + d]).collect();
+    }
+    vmon::edge::wide_usizes(n + 1).into_iter().filter(|x| *x > 200).collect()
+}
+
 fn bounded_alphabet(cap: usize) -> Vec<Op> {
     let mut v = vec![Op::Push, Op::Pop, Op::Iter, Op::IterMut, Op::Slices, Op::SlicesMut];
     for j in 0..=cap + 1 {
@@ -770,6 +781,7 @@ fn bounded_alphabet(cap: usize) -> Vec<Op> {
     }
     let mut idx: Vec<usize> = (0..cap + 2).collect();
     idx.extend_from_slice(&[usize::MAX, usize::MAX - 1, isize::MAX as usize]);
+    idx.extend(boundary_indices(cap));
     for i in idx {
         v.extend_from_slice(&[Op::Get(i), Op::GetMut(i), Op::Idx(i), Op::IdxMut(i)]);
     }
@@ -782,6 +794,7 @@ fn fixed_alphabet(n: usize) -> Vec<Op> {
     let mut v = vec![Op::Push, Op::Iter, Op::IterLoop, Op::IterMut, Op::Slices, Op::SlicesMut];
     let mut idx: Vec<usize> = (0..n + 2).collect();
     idx.extend_from_slice(&[2 * n, 3 * n + 1, usize::MAX, usize::MAX - 1, isize::MAX as usize]);
+    idx.extend(boundary_indices(n));
     for i in idx {
         v.extend_from_slice(&[Op::Get(i), Op::GetMut(i), Op::Idx(i), Op::IdxMut(i), Op::SetFirst(i)]);
     }
@@ -824,6 +837,12 @@ fn random_fixed_op(rng: &mut Rng, n: usize) -> Op {
     }
 }
 fn rand_index(rng: &mut Rng, cap: usize, len: usize) -> usize {
+    if rng.chance(1, 12) {
+        let k = [8u32, 16, 24, 31, 32, 33, 48, 63][rng.usize_below(8)];
+        let d = rng.usize_below(cap + 2);
+        let m = 1 + rng.usize_below(3);
+        return if rng.bool() { (1usize << k) - d } else { (1usize << k).wrapping_mul(m).wrapping_add(d) };
+    }
     match rng.below(20) {
         0 => usize::MAX,
         1 => usize::MAX - rng.usize_below(3),
@@ -954,6 +973,261 @@ fn check_constructors(rep: &mut Report) {
     rep.eval(1);
 }
 
+// ------------------------------------------------------------------ huge capacities (64-bit hosts)
+/// Ring buffers over `vec![0u8; 2^32 + r]`: a capacity, a length, a start or an index that does
+/// not fit 32 bits. The storage comes from calloc, so only the handful of pages the probe touches
+/// are ever backed by memory. The model is sparse: slot -> value (default 0).
+struct Sparse {
+    cap: usize,
+    slots: std::collections::HashMap<usize, u8>,
+}
+impl Sparse {
+    fn get(&self, slot: usize) -> u8 {
+        *self.slots.get(&slot).unwrap_or(&0)
+    }
+    fn set(&mut self, slot: usize, v: u8) {
+        self.slots.insert(slot, v);
+    }
+    fn slot(&self, base: usize, i: usize) -> usize {
+        ((base as u128 + i as u128) % self.cap as u128) as usize
+    }
+}
+
+fn huge_indices(rng: &mut Rng, len: usize) -> usize {
+    let wide = vmon::edge::wide_usizes(9);
+    match rng.below(8) {
+        0 => len,
+        1 => len.wrapping_sub(1),
+        2 => len.wrapping_add(1 + rng.usize_below(3)),
+        3 | 4 => wide[rng.usize_below(wide.len())],
+        5 => (1usize << 32) + rng.usize_below(12),
+        6 => (1usize << 32) - 1 - rng.usize_below(12),
+        _ => rng.usize_below(12),
+    }
+}
+
+/// one probe; returns false after the first violation
+fn huge_probe(rep: &mut Report, seed: u64, r: usize, cfg: usize, n_ops: usize) -> bool {
+    let cap: usize = (1usize << 32) + r;
+    let case = format!("kind=huge;seed={};r={};cfg={};n={}", seed, r, cfg, n_ops);
+    let mut rng = Rng::derive(seed, &[66, r as u64, cfg as u64]);
+    let mut ok = true;
+    macro_rules! fail {
+        ($sig:expr, $($a:tt)*) => {{
+            rep.violation($sig, format!("capacity 2^32+{}: {}", r, format!($($a)*)), case.clone());
+            ok = false;
+        }};
+    }
+    // ---- Bounded
+    let (start, len) = [(0usize, 0usize), (cap - 2, 0), (cap - 1, 1), (5, (1usize << 32) + 1), (cap - 3, cap), ((1usize << 32) - 1, 5), (7, (1usize << 32) - 2)][cfg % 7];
+    let res = vmon::catch(|| {
+        let mut data = vec![0u8; cap];
+        let mut m = Sparse { cap, slots: Default::default() };
+        // markers at the ends of the live region and around the 2^32 boundary
+        for (k, i) in [0usize, 1, len.wrapping_sub(1), len.wrapping_sub(2), (1 << 32) - 6, (1 << 32) - 5, 1 << 32, (1 << 32) + 1].into_iter().enumerate() {
+            if i < len {
+                let s = m.slot(start, i);
+                data[s] = 101 + k as u8;
+                m.set(s, 101 + k as u8);
+            }
+        }
+        let mut rb = Bounded::from_raw_parts(start, len, data);
+        let (mut mstart, mut mlen) = (start, len);
+        let mut next: u8 = 1;
+        let mut errs: Vec<(String, String)> = Vec::new();
+        for step in 0..n_ops {
+            if !errs.is_empty() {
+                break;
+            }
+            match rng.below(10) {
+                0..=3 => {
+                    let v = next;
+                    next = next % 99 + 1;
+                    let got = rb.push(v);
+                    let want = if mlen == cap {
+                        let old = m.get(mstart);
+                        m.set(mstart, v);
+                        mstart = (mstart + 1) % cap;
+                        Some(old)
+                    } else {
+                        let s = m.slot(mstart, mlen);
+                        m.set(s, v);
+                        mlen += 1;
+                        None
+                    };
+                    if got != want {
+                        errs.push(("huge|bounded|push_result".into(), format!("step {}: push({}) returned {:?}, model {:?} (start {}, len {})", step, v, got, want, mstart, mlen)));
+                    }
+
+                }
+                4 | 5 => {
+                    let got = rb.pop();
+                    let want = if mlen == 0 {
+                        None
+                    } else {
+                        let v = m.get(mstart);
+                        mstart = (mstart + 1) % cap;
+                        mlen -= 1;
+                        Some(v)
+                    };
+                    if got != want {
+                        errs.push(("huge|bounded|pop_result".into(), format!("step {}: pop() returned {:?}, model {:?}", step, got, want)));
+                    }
+
+                }
+                _ => {
+                    let i = huge_indices(&mut rng, mlen);
+                    let got = rb.get(i).copied();
+                    let want = if i < mlen { Some(m.get(m.slot(mstart, i))) } else { None };
+                    if got != want {
+                        errs.push(("huge|bounded|get".into(), format!("step {}: get({}) = {:?}, model {:?} (start {}, len {})", step, i, got, want, mstart, mlen)));
+                    }
+                    if let (Some(x), true) = (rb.get_mut(i), i < mlen) {
+                        *x = x.wrapping_add(1);
+                        let s = m.slot(mstart, i);
+                        let nv = m.get(s).wrapping_add(1);
+                        m.set(s, nv);
+                    }
+
+                }
+            }
+            if rb.len() != mlen || rb.max_len() != cap || rb.is_empty() != (mlen == 0) || rb.is_full() != (mlen == cap) {
+                errs.push(("huge|bounded|len_or_flags".into(), format!("step {}: len {} max_len {} empty {} full {}; model len {} cap {}", step, rb.len(), rb.max_len(), rb.is_empty(), rb.is_full(), mlen, cap)));
+            }
+            if mlen <= 64 {
+                let got: Vec<u8> = rb.iter().copied().collect();
+                let want: Vec<u8> = (0..mlen).map(|i| m.get(m.slot(mstart, i))).collect();
+                if got != want {
+                    errs.push(("huge|bounded|iter".into(), format!("step {}: iter() = {:?}, model {:?} (start {})", step, got, want, mstart)));
+                }
+            }
+        }
+        // representation: raw parts and the touched slots of the storage
+        let (s, l, data) = unsafe { rb.into_raw_parts() };
+        if (s, l) != (mstart, mlen) && !(mlen == 0 && l == 0) {
+            errs.push(("huge|bounded|raw_parts".into(), format!("into_raw_parts = (start {}, len {}), model ({}, {})", s, l, mstart, mlen)));
+        }
+        if l != 0 || mlen != 0 {
+            for (slot, v) in &m.slots {
+                if data[*slot] != *v {
+                    errs.push(("huge|bounded|storage_slot".into(), format!("storage[{}] = {}, model {}", slot, data[*slot], v)));
+                    break;
+                }
+            }
+        }
+        errs
+    });
+    rep.eval(n_ops as u64);
+    match res {
+        Ok(errs) => {
+            for (sig, d) in errs {
+                fail!(&sig, "Bounded::from_raw_parts({}, {}, ..): {}", start, len, d);
+            }
+        }
+        Err(msg) => fail!("huge|bounded|panic", "Bounded::from_raw_parts({}, {}, ..) history panicked: {}", start, len, msg),
+    }
+    // ---- Fixed
+    let first0 = [0usize, 1, cap - 1, (1usize << 32) - 1, 1 << 32, 3][cfg % 6];
+    let res = vmon::catch(|| {
+        let mut data = vec![0u8; cap];
+        let mut m = Sparse { cap, slots: Default::default() };
+        for (k, s) in [0usize, 1, 2, cap - 1, cap - 2, (1 << 32) - 1, 1 << 32, (1 << 32) + 1, first0].into_iter().enumerate() {
+            if s < cap {
+                data[s] = 150 + k as u8;
+                m.set(s, 150 + k as u8);
+            }
+        }
+        let mut rb = Fixed::from_raw_parts(first0, data);
+        let mut first = first0;
+        let mut next: u8 = 1;
+        let mut errs: Vec<(String, String)> = Vec::new();
+        for step in 0..n_ops {
+            if !errs.is_empty() {
+                break;
+            }
+            match rng.below(10) {
+                0..=3 => {
+                    let v = next;
+                    next = next % 99 + 1;
+                    let got = rb.push(v);
+                    let want = m.get(first);
+                    m.set(first, v);
+                    first = (first + 1) % cap;
+                    if got != want {
+                        errs.push(("huge|fixed|push_result".into(), format!("step {}: push({}) returned {}, model {} (first now {})", step, v, got, want, first)));
+                    }
+
+                }
+                4 => {
+                    let i = match rng.below(4) {
+                        0 => cap - 1 - rng.usize_below(4),
+                        1 => (1usize << 32) - 1 + rng.usize_below(3),
+                        _ => rng.usize_below(6),
+                    };
+                    // set_first is absolute: slot index modulo the length
+                    let i = if rng.chance(1, 5) { huge_indices(&mut rng, cap) } else { i };
+                    rb.set_first(i);
+                    first = i % cap;
+                }
+                _ => {
+                    let i = huge_indices(&mut rng, cap);
+                    let got = *rb.get(i);
+                    let s = m.slot(first, i);
+                    let want = m.get(s);
+                    if got != want {
+                        errs.push(("huge|fixed|get".into(), format!("step {}: get({}) = {}, model slot {} = {} (first {})", step, i, got, s, want, first)));
+                    }
+                    let x = rb.get_mut(i);
+                    *x = x.wrapping_add(1);
+                    m.set(s, want.wrapping_add(1));
+
+                }
+            }
+            if rb.len() != cap {
+                errs.push(("huge|fixed|len".into(), format!("step {}: len {} != {}", step, rb.len(), cap)));
+            }
+        }
+        let (f, data) = rb.into_raw_parts();
+        if f != first {
+            errs.push(("huge|fixed|raw_parts".into(), format!("into_raw_parts first = {}, model {}", f, first)));
+        }
+        for (slot, v) in &m.slots {
+            if data[*slot] != *v {
+                errs.push(("huge|fixed|storage_slot".into(), format!("storage[{}] = {}, model {}", slot, data[*slot], v)));
+                break;
+            }
+        }
+        errs
+    });
+    rep.eval(n_ops as u64);
+    match res {
+        Ok(errs) => {
+            for (sig, d) in errs {
+                fail!(&sig, "Fixed::from_raw_parts({}, ..): {}", first0, d);
+            }
+        }
+        Err(msg) => fail!("huge|fixed|panic", "Fixed::from_raw_parts({}, ..) history panicked: {}", first0, msg),
+    }
+    rep.hit("huge_capacity_probes");
+    rep.nontrivial(vmon::hash_combine(0x4875, vmon::hash_combine(seed, (r * 64 + cfg) as u64)));
+    ok
+}
+
+fn huge_probes(rep: &mut Report, seed: u64, n_cfg: usize, n_ops: usize) {
+    if usize::BITS < 64 {
+        rep.note("huge-capacity probes skipped: not a 64-bit host");
+        return;
+    }
+    rep.oblige("huge_capacity_probes", 1);
+    for cfg in 0..n_cfg {
+        for r in [3usize, 8] {
+            if !huge_probe(rep, seed, r, cfg, n_ops) {
+                return;
+            }
+        }
+    }
+}
+
 fn random_histories(seed: u64, stage_tag: u64, n_hist: u64, max_cap: usize, max_len: usize, threads: usize, stores: &'static [&'static str], rep: &mut Report) {
     let reps = vmon::par_for(threads, n_hist, 16, |_| Report::new("C06", "w"), |rep, h| {
         let mut rng = Rng::derive(seed, &[6, stage_tag, h]);
@@ -1015,6 +1289,11 @@ fn random_histories(seed: u64, stage_tag: u64, n_hist: u64, max_cap: usize, max_
 
 fn replay(case: &str, rep: &mut Report) {
     let m = vmon::cli::parse_case(case);
+    if m["kind"] == "huge" {
+        eprintln!("CASE {}", case);
+        huge_probe(rep, m["seed"].parse().unwrap(), m["r"].parse().unwrap(), m["cfg"].parse().unwrap(), m["n"].parse().unwrap());
+        return;
+    }
     let cap: usize = m["cap"].parse().unwrap();
     let start: usize = m["start"].parse().unwrap();
     let len: usize = m["len"].parse().unwrap();
@@ -1048,11 +1327,12 @@ fn main() {
         rep.oblige(o, 1);
     }
     match cli.stage.as_str() {
-        "main" => {
+        "main" | "release" => {
             let max_cap = cli.t(6, 8);
             enumerate_steps(1..=max_cap, &STORES, (0, 1), &mut rep);
             rep.exhaustive(format!("Bounded: every (cap 1..={}, start, len) x every operation of the alphabet (indices 0..cap+2 and usize::MAX, usize::MAX-1, isize::MAX) x 4 storage kinds; Fixed: every (N 1..={}, first) x every operation", max_cap, max_cap));
             check_constructors(&mut rep);
+            huge_probes(&mut rep, cli.seed, cli.t(7, 42), cli.t(300, 3000));
             random_histories(cli.seed, 0, cli.t(20_000, 1_000_000), cli.t(64, 1000), cli.t(200, 600), cli.threads, &STORES, &mut rep);
         }
         "miri" => {
